@@ -333,8 +333,9 @@ func H_C14_eol(kind, a int) {
 	for _, c := range x {
 		assume(c != '\r')
 	}
-	h1, _ := renderPlain(cloneBytes(x), false)
+	h1, b1 := renderPlain(cloneBytes(x), false)
 	e1 := eolToLF(h1)
+	f1 := eolToLF(renderWith(&HTMLRenderer{FilterTag: FilterTagGFM}, b1))
 	for style := 0; style < 2; style++ {
 		var y []byte
 		for _, c := range x {
@@ -348,11 +349,19 @@ func H_C14_eol(kind, a int) {
 				y = append(y, c)
 			}
 		}
-		h2, _ := renderPlain(y, false)
+		h2, b2 := renderPlain(y, false)
 		if style == 0 {
 			check(vsame(eolToLF(h2), e1), "C14.eol.crlf")
 		} else {
 			check(vsame(crToLF(h2), e1), "C14.eol.cr")
+		}
+		// the clause holds for every renderer configuration: also with the GFM tag filter
+		// (a line ending directly after a tag name ends the name in every spelling)
+		f2 := renderWith(&HTMLRenderer{FilterTag: FilterTagGFM}, b2)
+		if style == 0 {
+			check(vsame(eolToLF(f2), f1), "C14.eol.crlf.filtered")
+		} else {
+			check(vsame(crToLF(f2), f1), "C14.eol.cr.filtered")
 		}
 	}
 	vdigest(h1)
@@ -414,6 +423,8 @@ var c14Templates = []string{
 	"[a]: b\n" + hA + hA,                    // 14: definition followed by a two-byte line (setext underline left over)
 	" ```\na\n\xffS",                        // 15: last line is only the indentation of an open fenced block
 	"> ~~~\n> a\n>\xffS",                     // 16: the same inside a block quote
+	"<xmp\n" + hA + ">b",                      // 17: HTML block: a filtered tag name directly followed by the line ending
+	"a <title\nb=\"" + hA + "\">c",             // 18: inline tag: the same
 }
 
 var c14Pads = []string{"\n", " \n", "\r\n", "\t\n\n", "\r"}
